@@ -33,6 +33,7 @@ fn scenario(name: &str, multi_prefix: bool) -> ChatScn {
         "JOIN #x,#y",
         "PART #x",
         "PART #x,#y :bye now",
+        "PART #x,#x",
         "KICK #x {peer}",
         "NICK {alt}",
         "QUIT",
@@ -59,6 +60,7 @@ fn scenario(name: &str, multi_prefix: bool) -> ChatScn {
         closes: false,
     };
     s.invariants = vec!["membership-symmetry", "dangling-member", "rank-set"];
+    s.orphan_check = true;
     s.state_oracle = Some(Box::new(views_agree));
     s.step_oracle = Some(Box::new(roster_reconstructs));
     s.goals = vec!["views-compared", "roster-join", "roster-part", "roster-kick", "roster-nick", "roster-vanish", "two-members"];
@@ -85,7 +87,15 @@ fn views_agree(scn: &ChatScn, w: &mut World, v: &View, goals: &mut BTreeSet<Stri
             }
         }
         for ch in CHANS {
-            let roster: BTreeSet<String> = v.m.chans.get(ch).map(|c| c.members.keys().cloned().collect()).unwrap_or_default();
+            let members: BTreeSet<String> = v.m.chans.get(ch).map(|c| c.members.keys().cloned().collect()).unwrap_or_default();
+            // "to a client entitled to see them": an outsider of a secret channel is shown nothing
+            let hidden = v.m.chans.get(ch).map_or(false, |c| c.fs) && !v.nick(viewer).map_or(false, |n| members.contains(n));
+            let roster: BTreeSet<String> = if hidden { BTreeSet::new() } else { members };
+            if hidden {
+                goals.insert("secret-outsider".into());
+            } else if v.m.chans.get(ch).map_or(false, |c| c.fs) {
+                goals.insert("secret-member".into());
+            }
             let names = match names_view(w, viewer, ch) {
                 Ok(x) => x,
                 Err(e) => return vec![finding("machinery", e.0)],
@@ -232,8 +242,34 @@ fn renamed_to<'a>(pre: &View, post: &'a View, old: &str) -> Option<&'a String> {
     post.m.users.iter().find(|(n, x)| x.name == u.name && !pre.m.users.contains_key(*n)).map(|(n, _)| n)
 }
 
+/// The churn scenario on a channel that starts secret: members keep seeing the full
+/// roster through all three views under their current nicknames, outsiders nothing.
+pub fn secret(full: bool) -> ChatScn {
+    let mut s = scenario("c04-secret", false);
+    s.prelude.push((0, "JOIN #x".into()));
+    s.prelude.push((0, "MODE #x +s".into()));
+    s.prelude.push((1, "JOIN #x".into()));
+    if !full {
+        // quick: one channel only
+        s.alphabet_for.retain(|(_, t)| !t.contains("#y"));
+    }
+    s.goals = vec!["views-compared", "two-members", "secret-outsider", "secret-member"];
+    s.step_oracle = None;
+    s
+}
+
+/// Rosters and the three views after a contended registration (see ghost.rs).
+pub fn ghost(full: bool) -> ChatScn {
+    let mut s = super::ghost::ghost_scn("c04-ghost", &[Cat::Membership, Cat::ChanExistence, Cat::UserExistence, Cat::UserIdentity], full);
+    s.state_oracle = Some(Box::new(views_agree));
+    s.goals.push("views-compared");
+    s
+}
+
 pub fn plan(quick: bool) -> Plan {
     let mut parts = vec![];
+    parts.push(Part::Bfs(Box::new(ghost(!quick)), lim(if quick { 6 } else { 8 }, 2_000_000, if quick { 20.0 } else { 600.0 })));
+    parts.push(Part::Bfs(Box::new(secret(!quick)), lim(if quick { 4 } else { 6 }, 2_000_000, if quick { 20.0 } else { 600.0 })));
     if quick {
         parts.push(Part::Bfs(Box::new(scenario("c04-churn", false)), lim(6, 3_000_000, 40.0)));
     } else {
